@@ -551,7 +551,54 @@ func rSameDecisions(a, b []bool) bool {
 // semantics (instance B, same starting values) and compares everything the
 // property names: label sets, values, deletions, expiry marks and whether a
 // runtime error was raised.
-func vmCheckRef(mk func() *code.Object, caps [][]int, name string, prog *rN, types []int) {
+// rPat describes one pattern of the intended tree: its regexp source, the
+// pattern whose first capture it is matched against (-1: the line), and the
+// index of the compiled regexp that stands for it.
+type rPat struct {
+	re   string
+	subj int
+	idx  int
+}
+
+func rSameOutcome(a, b []string) bool {
+	if a == nil || b == nil {
+		return a == nil && b == nil
+	}
+	same := len(a) == len(b)
+	for i := 1; same && i < len(a); i++ {
+		same = a[i] == b[i]
+	}
+	return same
+}
+
+// rApplyMatch gives every pattern its outcome for the string it is applied
+// to.  Patterns with the same text are the same function: applied to equal
+// strings they have equal outcomes.
+func rApplyMatch(obj *code.Object, pats []rPat, l vmMatch) {
+	subjects := make([]string, len(pats))
+	active := make([]bool, len(pats))
+	for i, pt := range pats {
+		subjects[i] = "LINE"
+		if pt.idx < 0 {
+			continue // declared by the shape generator, not used by the program
+		}
+		if pt.subj >= 0 {
+			if l[pt.subj] == nil {
+				continue // its operand's pattern did not match: never evaluated
+			}
+			subjects[i] = l[pt.subj][1]
+		}
+		active[i] = true
+		for j := 0; j < i; j++ {
+			if active[j] && pats[j].re == pt.re && subjects[j] == subjects[i] {
+				vAssume(rSameOutcome(l[i], l[j]))
+			}
+		}
+		vSetMatchOn(obj.Regexps[pt.idx], subjects[i], l[i])
+	}
+}
+
+func vmCheckRef(mk func() *code.Object, caps [][]int, name string, prog *rN, types []int, pats []rPat) {
 	vClockFreeze()
 	a := mk()
 	// "every such well-typed program is accepted" is checked by the driver
@@ -570,7 +617,7 @@ func vmCheckRef(mk func() *code.Object, caps [][]int, name string, prog *rN, typ
 	va := New(name, a, false, nil, false, false)
 	va.HardCrash = true
 	l := vmSymMatch(caps, "l")
-	vmApplyMatch(a, l)
+	rApplyMatch(a, pats, l)
 	now := vmNow()
 	ea, _ := vmLine(va, name)
 
